@@ -57,6 +57,8 @@ func (idx *BigIndexWriter) AddRow(values map[string]string) (uint32, error) {
 		idx.nextRowID++
 	}()
 
+	verifPoint("big.addrow")
+
 	for k, v := range values {
 		valueIdx := idx.schema.add(k, v)
 
@@ -77,6 +79,8 @@ func (idx *BigIndexWriter) AddRow(values map[string]string) (uint32, error) {
 		if err != nil {
 			return 0, fmt.Errorf("failed to commit: %w", err)
 		}
+
+		verifPoint("big.temp-commit")
 
 		idx.tempTx, err = idx.tempDB.Begin(true)
 		if err != nil {
@@ -109,6 +113,8 @@ func (idx *BigIndexWriter) Flush() error {
 	defer func() {
 		_ = tx.Rollback()
 	}()
+
+	verifPoint("big.flush-begin")
 
 	dataBucket, err := tx.CreateBucketIfNotExists([]byte("data"))
 	if err != nil {
@@ -198,6 +204,8 @@ func (idx *BigIndexWriter) Flush() error {
 	if err := tx.Commit(); err != nil {
 		return fmt.Errorf("failed to commit changes: %w", err)
 	}
+
+	verifPoint("big.final")
 
 	return nil
 }
